@@ -256,7 +256,7 @@ def decide(pid, tier, seed, replay, t0):
         body = json.load(open(replay))
         lines = [c["line"] for c in body.get("cases", []) if "line" in c]
         for l in lines:
-            io_ = impl.run(l)
+            io_ = impl.run(l.split(" #")[0])
             msg = mod.oracle(l, io_)
             log("replay: %s -> impl %s ; oracle: %s" % (l, io_, msg or "holds"))
             if msg and not mod.known_match(l, io_, msg, known):
@@ -279,7 +279,8 @@ def decide(pid, tier, seed, replay, t0):
                     f["id"], l["expect"], got)))
     # ---- correspondence
     cases = list(mod.cases(rng, tier))
-    lines = [c[0] for c in cases]
+    full_lines = [c[0] for c in cases]          # may carry " #meta" for the oracle only
+    lines = [l.split(" #")[0] for l in full_lines]
     branches = {}
     for c in cases:
         branches[c[1]] = branches.get(c[1], 0) + 1
@@ -300,7 +301,7 @@ def decide(pid, tier, seed, replay, t0):
     # ---- oracle on every case (property restated on the real code's outputs)
     ok_n = sum(1 for o in impl_out if o.startswith("ok"))
     nontrivial = set()
-    for l, o in zip(lines, impl_out):
+    for l, o in zip(full_lines, impl_out):
         try:
             if mod.nontrivial(l, o):
                 nontrivial.add(l)
@@ -360,7 +361,7 @@ def decide(pid, tier, seed, replay, t0):
     if failures:
         nviol = len(failures)
         body = {"property": pid, "kind": "failing-input", "seed": seed, "tier": tier,
-                "cases": [{"line": l, "impl": impl.run(l) if l and not l.startswith("#") else None,
+                "cases": [{"line": l, "impl": impl.run(l.split(" #")[0]) if l and not l.startswith("#") else None,
                            "why": m} for l, m in failures[:10]],
                 "proof_problems": problems, "disagreements": disagreements[:10]}
         path = write_replay(pid, seed, 0, body)
